@@ -61,7 +61,9 @@ func Compile(grammar *Grammar, opts Options) (*Tables, error) {
 	if opts.MinimizeDFA {
 		minimize(c.out, grammar)
 	}
-	if opts.Optimize {
+	if opts.Optimize && c.out.UsedLADepth == 0 {
+		// Note: the displacement encoding cannot represent deep lookahead entries (lalr(k), k > 1),
+		// such grammars keep using the default encoding.
 		numRules := len(c.out.RuleLen) // takes into account runtime lookahead rules
 		c.out.Optimized = Optimize(c.out.DefaultEnc, grammar.Terminals, numRules, opts.DefaultReduce)
 	}
